@@ -403,6 +403,7 @@ func doRecv(c *chanObj) (value, bool) {
 
 func doSend(c *chanObj, v value) {
 	if c.closed {
+		R.lastPanicMsg = "panic: send on closed channel"
 		panic(targetPanic{iface{I.runtimeErrorString, "send on closed channel"}})
 	}
 	if len(c.recvq) > 0 {
